@@ -244,7 +244,11 @@ static Ep ep_of(const std::string& s)
     return E_BAD;
 }
 
-static void ON() { MemoryLeakWarningPlugin::turnOnDefaultNotThreadSafeNewDeleteOverloads(); }
+// "ts" as 4th argument: the same script through the thread-safe overloads (turnOnThreadSafeNewDeleteOverloads); the specification is the
+// same - serialised by a mutex or not, every operator new / delete form has one meaning
+static bool g_ts = false;
+static int g_period = 0;     // 0 checking, 1 enabled, 2 disabled
+static void ON() { if (g_ts) MemoryLeakWarningPlugin::turnOnThreadSafeNewDeleteOverloads(); else MemoryLeakWarningPlugin::turnOnDefaultNotThreadSafeNewDeleteOverloads(); }
 static void OFF() { MemoryLeakWarningPlugin::turnOffNewDeleteOverloads(); }
 
 int main(int argc, char** argv)
@@ -273,6 +277,7 @@ int main(int argc, char** argv)
     FILE* in = fopen(argv[1], "r");
     FILE* out = fopen(argv[2], "w");
     CAPB = (size_t) atol(argv[3]);
+    g_ts = argc >= 5 && strcmp(argv[4], "ts") == 0;
     if (!in || !out) return 2;
     vh_install(out, false);    // no signal handlers: a crash ends the log at the last completed call (every line is flushed)
     arena_raw = (char*) aligned_alloc(64, ((NSLOT * stride() + 63) / 64) * 64 + 64);
@@ -310,7 +315,7 @@ int main(int argc, char** argv)
             setCurrentNewAllocator(plain[0]); setCurrentNewArrayAllocator(plain[1]); setCurrentMallocAllocator(plain[2]);
             for (int i = 0; i < NSLOT; i++) { slot_clear(i); sh[i] = Shadow(); }
             for (int i = 0; i < 1024; i++) if (g_nodes[i]) { free(g_nodes[i]); g_nodes[i] = NULL; }   // records of blocks still tracked by the old detector
-            g_wild = false;
+            g_wild = false; g_period = 0;
             fprintf(out, "{\"op\":\"reset\"}\n");
             fflush(out);
             continue;
@@ -322,7 +327,8 @@ int main(int argc, char** argv)
         }
         Ep ep = ep_of(eps);
         rf->count = 0; rf->text[0] = 0;
-        det->startChecking();      // only clears the detector's message buffer (and stamps the period, which nothing here reads)
+        det->startChecking();      // clears the detector's message buffer
+        if (g_period == 1) det->stopChecking(); else if (g_period == 2) det->disable();      // the period chosen by the last "period" line
         g_nreq = 0; g_first_req = 0; g_served = -1; g_freed_slot = -1; g_over = "na"; g_release_ptr = NULL;
         g_fail_under = (fault == "under"); g_fail_node = (fault == "node"); g_next_slot = -1;
         std::string ret = "void"; long n = -1; bool inside = true, aligned = true;
@@ -418,6 +424,7 @@ int main(int argc, char** argv)
             OFF();
             if (g_freed_slot >= 0) sh[g_freed_slot].live = false;
         }
+        else if (op == "period") { g_period = var == "disabled" ? 2 : var == "enabled" ? 1 : 0; }
         else if (op == "typecheck") { if (val) det->enableAllocationTypeChecking(); else det->disableAllocationTypeChecking(); }
         else if (op == "setalloc") {
             int fam = eps == "new" ? 0 : eps == "newarr" ? 1 : 2;
